@@ -1,8 +1,11 @@
 """C13 - introduced peers behind cone NATs become mutually reachable.
 
 Stage 0: replay corpus/C13/*.json (configurations that once violated the property) on the implementation.
-Stage G: tr_lan - the LAN subnet table of EndpointListener.address_in_lan_subnets -> coq/gen/G13_lan.v.
-Stage P: props/C13.v.
+Stage G: tr_lan - the LAN subnet table of EndpointListener.address_in_lan_subnets -> coq/gen/G13_lan.v;
+         tr_introduction - the introduction / puncture handlers of community.py and the address helpers of
+         EndpointListener, statement by statement -> coq/gen/G13_introduction.v.
+Stage P: props/C13.v, props/C13x.v (NATed introducer), props/C13y.v (gen_refines_hand_model: the translated handlers,
+         run by the interpreter model/M13_intro_gen.v, compute exactly M13_nat.handle / make_request / walkable).
 Stage C: real `Community` nodes (real keys, real signatures, real serializer, real Network / Peer objects) on a
          NAT-enforcing simulated network (tools/vlib/natnet.py) against the hand model
          coq/model/M13_nat.v + M13_scenario.v evaluated inside Coq:
@@ -17,7 +20,8 @@ Stage C: real `Community` nodes (real keys, real signatures, real serializer, re
            (f) the enlarged space of props/C13x.v: the introducer behind a NAT of its own or sharing a site with
                requester / introduced peer, reached through a rendezvous tracker (compared and judged; where the
                introducer shares a NAT box with exactly one party the property is refuted in the model - theorem
-               blind_introducer_refuted - and the implementation's failure is reported under a stable key).
+               blind_introducer_refuted - and the implementation's failure is reported under a stable key);
+           (g) a sample of the scenario and operation-sequence cases evaluated over the TRANSLATED handlers.
 Oracle : an independent Python reading of the property on what the implementation did (`judge`): the
          introducer's response and its puncture-request leave in the same activation and name the
          requester's LAN/WAN pair; the introduced peer punctures towards the requester; a later request
@@ -31,7 +35,7 @@ import glob
 import json
 import os
 
-from tools.tr import tr_lan
+from tools.tr import tr_introduction, tr_lan
 from tools.vlib import coqrun, natnet
 from tools.vlib.natnet import ADDR, FULL, OPEN, PORT, int2ip, ip2int
 from tools.vlib.repoenv import VERIF
@@ -39,6 +43,10 @@ from tools.vlib.repoenv import VERIF
 IMPORTS = ("From Coq Require Import ZArith List Bool.\n"
            "From IPV8V Require Import lib.PyErr gen.G13_lan model.M13_nat model.M13_scenario.\n"
            "Import ListNotations.\nOpen Scope Z_scope.\n")
+IMPORTS_GEN = ("From Coq Require Import ZArith List Bool.\n"
+               "From IPV8V Require Import lib.PyErr gen.G13_lan model.M13_nat model.M13_scenario model.M13_py "
+               "gen.G13_introduction model.M13_intro_gen.\n"
+               "Import ListNotations.\nOpen Scope Z_scope.\n")
 CORPUS = os.path.join(VERIF, "corpus", "C13")
 TYPES = ["Open", "FullCone", "AddrRestricted", "PortRestricted"]
 ID_T, ID_B, ID_A, ID_R = 0, 1, 2, 8
@@ -785,6 +793,17 @@ def run(ctx):
         ctx.extra["translator_output_sha256"] = {"gen/G13_lan.v": hashlib.sha256(text.encode()).hexdigest()}
         ctx.proofs()
         ctx.proofs(part="C13x")
+    # the handlers of ipv8/community.py, regenerated from the AST (fail closed)
+    ctx.extra["translated_ok"] = False
+    try:
+        gtext = tr_introduction.write()
+        import hashlib
+        ctx.extra.setdefault("translator_output_sha256", {})["gen/G13_introduction.v"] = hashlib.sha256(gtext.encode()).hexdigest()
+        ctx.extra["translated_ok"] = True
+    except Exception as e:   # noqa
+        ctx.broke("translator tr_introduction aborted", repr(e))
+    if ctx.extra["translated_ok"]:
+        ctx.proofs(part="C13y")
     ctx.coverage["trusted_base"] = [
         "Coq 8.16.1 kernel; no axioms",
         "hand models M13_nat (NAT network, handlers of community.py over the Peer/Network bookkeeping) and "
@@ -1029,6 +1048,34 @@ async def _stages(ctx, keys, net_ref, dec, scratch):
         ctx.broke("correspondence: %d further operation-sequence mismatches" % (len(mism) - 3))
 
     timing["coq_eval"] = round(time.time() - t0, 1)
+    t0 = time.time()
+    # ------------------------------------------------------------------ (g) the TRANSLATED handlers on the same cases, inside Coq
+    if ctx.extra.get("translated_ok"):
+        step_s, step_o = (12, 3) if ctx.quick else (16, 6)
+        gi_s = list(range(0, len(scn_cases), step_s))
+        mism, errs = coqrun.eval_mismatches(IMPORTS_GEN, "fun g => observe (run_ops_g (mk_world g) (scenario_ops g))", "obs_eqb",
+                                            [scn_cases[i] for i in gi_s], os.path.join(scratch, "scn_gen"),
+                                            ctype="cfg * obs", preamble=pre, shard=30)
+        for e in errs:
+            ctx.broke("correspondence (translated handlers, scenario): Coq evaluation failed", e)
+        for j in mism[:3]:
+            i = gi_s[j]
+            ctx.broke("correspondence: scenario differs between the TRANSLATED handlers and the implementation: %s" % describe(scn_meta[i]),
+                      "CFG %s\nIMPLEMENTATION:\n%s" % (json.dumps(scn_meta[i]), show_obs(scn_obs[i])[:3500] if scn_obs[i] else scn_cases[i][1][:3500]))
+        if len(mism) > 3:
+            ctx.broke("correspondence: %d further scenario mismatches of the translated handlers" % (len(mism) - 3))
+        gi_o = list(range(0, len(op_cases), step_o))
+        mism, errs = coqrun.eval_mismatches(IMPORTS_GEN, "fun c => observe (run_ops_g (mk_world (fst c)) (snd c))", "obs_eqb",
+                                            [op_cases[i] for i in gi_o], os.path.join(scratch, "ops_gen"),
+                                            ctype="(cfg * list op) * obs", preamble=pre, shard=30)
+        for e in errs:
+            ctx.broke("correspondence (translated handlers, operations): Coq evaluation failed", e)
+        for j in mism[:3]:
+            g, ops = op_meta[gi_o[j]]
+            ctx.broke("correspondence: operation sequence differs between the TRANSLATED handlers and the implementation",
+                      "CFG %s\nOPS %s\nIMPLEMENTATION:\n%s" % (json.dumps(g), json.dumps(ops), op_cases[gi_o[j]][1][:3500]))
+        ctx.extra.setdefault("counts_translated", {"scenario_cfgs": len(gi_s), "operation_sequences": len(gi_o)})
+    timing["coq_eval_translated"] = round(time.time() - t0, 1)
     ctx.coverage["rule"] = (
         "scenario on real Community nodes over a NAT-enforcing network for every enumerated configuration "
         "(requester NAT type x candidate NAT type x same/different site x acquisition by request/by response x "
